@@ -185,8 +185,20 @@ def run(ctx):
                 if g[0] == "while" and g[1] == ret[2]:
                     tests = T.conjuncts(g[2])
                     fresh = any(t_ in (T.cmp("NotEq", T.call(("m", "get"), (dpar, cand)), T.NONE), ("in", cand, dpar), ("in", cand, T.call(("m", "keys"), (dpar,)))) for t_ in tests)
-    ctx.check(fresh, "KEY", f"{gu.qualname} / KEY / returned id re-tested until absent from the dictionary", ctx.where(gu),
-              "while dictionary.get(new_id) is not None: next candidate", "get_unused_id returns a candidate without checking that no existing vertex uses it (ids are not contiguous after resampling)")
+    # positive form of the same finding: the function never looks anything up in the dictionary it was handed (no membership test, no
+    # .get, no subscript), so whatever it returns cannot have been checked against the ids in use - however the function is written
+    looks = [x for e in sgu.events for fld in ("value", "term", "test") for x in T.subterms(getattr(e, fld, None) or T.NONE)
+             if (x[0] == "in" and dpar in T.subterms(x[2])) or (x[0] == "call" and x[1] in (("m", "get"), ("m", "keys"), ("m", "__contains__")) and x[2] and x[2][0] == dpar)
+             or (x[0] == "idx" and x[1] == dpar)]
+    looks += [g for e in sgu.events for g in e.guard if g[0] == "while" and any(y == dpar for y in T.subterms(g[2]) ) and
+              any(y[0] in ("in",) or (y[0] == "call" and y[1] == ("m", "get")) for y in T.subterms(g[2]))]
+    if not looks and not fresh:
+        ctx.violation("KEY", f"{gu.qualname} / KEY / returned id re-tested until absent from the dictionary", ctx.where(gu),
+                      "get_unused_id never tests a candidate against the dictionary (no `in`, `.get` or look-up of it anywhere in the function): after resampling the ids are "
+                      "not contiguous, so e.g. len(dictionary) can be the id of a live vertex, which the merged vertex then overwrites")
+    else:
+        ctx.check(fresh, "KEY", f"{gu.qualname} / KEY / returned id re-tested until absent from the dictionary", ctx.where(gu),
+                  "while dictionary.get(new_id) is not None: next candidate", "get_unused_id returns a candidate without checking that no existing vertex uses it (ids are not contiguous after resampling)")
     newid = news[0].key
     ctx.check(newid == T.call(gu.qualname, (T.sym(j.params[1]),)), "KEY", f"{JV} / KEY / merged vertex stored under get_unused_id(vertices)", ctx.where(j, news[0].node),
               "fresh id of the vertex dictionary itself", f"the merged vertex is stored under {T.show(T.alpha(newid))[:80]}")
